@@ -48,11 +48,19 @@ class Baton:
         self.outdir = outdir
         self.labels = labels or [str(i) for i in range(len(bodies))]
         self.symmetry = symmetry
-        # names of operations that only touch run-private state (os.close of
-        # a private descriptor): such an operation commutes with every
+        # Partial-order reduction (only when local_ops is given): an
+        # operation that touches run-private state only commutes with every
         # operation of the other runs, so {that operation} is a persistent
-        # set and it is executed without branching (partial-order reduction).
+        # set and it is executed without branching.  Run-private are (a) the
+        # operations named in local_ops (os.close of a private descriptor)
+        # and (b) operations all of whose paths carry the pid that os.getpid()
+        # reported to this run (private temporary files).  (b) rests on "no
+        # run touches a path that carries another run's pid", which is
+        # checked on every operation of every execution (BatonError if not).
         self.local_ops = tuple(local_ops)
+        self.pidtok = {}            # tid -> pid string handed out to the run
+        self.is_local = {}          # tid -> pending operation is run-private
+        self.fault = None
         self.cv = threading.Condition()
         self.turn = None            # tid allowed to run; None = scheduler
         self.abort = False
@@ -83,10 +91,33 @@ class Baton:
             self.texts.append(text)
         return self.texts.index(text)
 
+    def pid_for(self, tid):
+        self.pidtok[tid] = str(700000 + tid)
+        return 700000 + tid
+
+    def _private(self, tid, descr):
+        opname, _, path = descr.partition(":")
+        for other, tok in self.pidtok.items():
+            if self.local_ops and other != tid and tok in path:
+                # reported by the scheduler thread (raising here would end
+                # up inside the code under test)
+                self.fault = (f"run {tid} touches '{path}', which carries the "
+                              f"pid of run {other}: the privacy assumption "
+                              f"of the reduction does not hold")
+        if not self.local_ops:
+            return False
+        if opname in self.local_ops:
+            return True
+        tok = self.pidtok.get(tid)
+        parts = path.split("->") if path not in ("", "None") else []
+        return bool(tok and parts and all(tok in part for part in parts))
+
     def point(self, tid, descr):
         """Park the calling run-thread before an FS operation."""
+        local = self._private(tid, descr)
         with self.cv:
             self.pending[tid] = descr
+            self.is_local[tid] = local
             self.turn = None
             self.cv.notify_all()
             while self.turn != tid and not self.abort:
@@ -129,11 +160,13 @@ class Baton:
                 self.cv.notify_all()
                 raise BatonError(f"thread {tid} did not reach its next "
                                  f"scheduling point within {STEP_TIMEOUT}s")
+        if self.fault:
+            raise BatonError(self.fault)
 
     def enabled(self):
         live = sorted(self.pending)
         for tid in live:
-            if self.pending[tid].split(":", 1)[0] in self.local_ops:
+            if self.is_local.get(tid):
                 return [tid]
         if not self.symmetry:
             return live
@@ -247,7 +280,7 @@ class OsProxy:
     def getpid(self):
         # each run models a separate process
         tid = self._b.current()
-        return _os.getpid() if tid is None else 700000 + tid
+        return _os.getpid() if tid is None else self._b.pid_for(tid)
 
     def __getattr__(self, name):
         real = getattr(_os, name)
